@@ -8,4 +8,8 @@ pub mod pb;
 pub mod prng;
 pub mod refc;
 pub mod script;
+#[cfg(feature = "full")]
+pub mod svc;
+#[cfg(feature = "full")]
+pub mod transport;
 pub mod props;
